@@ -200,6 +200,7 @@ def run(rep: core.Report):
     _r16l(rep)
     _r16m(rep)
     _r16o(rep)
+    _r16p(rep)
     _r16n(rep)
     _r16j(rep)
     from rules import c03
@@ -813,6 +814,113 @@ def _r16n(rep):
         lost = sorted(e_ for e_ in emitted if e_.lower() in vocab and ((getattr(e_, norm)() if norm != "identity" else e_) not in vocab))
         rep.instance("R16n", YML, core.qualname_of(st), f"written {sorted(emitted)} -> read with {norm}() as {sorted(read)}; dispatch tests {sorted(vocab)}", not lost,
                      f"the dumper writes {lost} and the loader stores it {'unchanged' if norm == 'identity' else 'through ' + norm + '()'}; the dispatch compares with {sorted(vocab)} case-sensitively, so a calculation saved with that method reloads with another one", line=st.lineno)
+
+
+def _r16p(rep):
+    """Which force constants phonopy.load() takes, evaluated over every combination of what is available."""
+    import itertools
+
+    rep.rule("R16p", "source of the force constants in the loading helper, evaluated over the finite domain (stored in the yaml file, file name given, already set on the object, FORCE_CONSTANTS / force_constants.hdf5 present in the working directory, yaml file name known for the log line): those stored in the phonopy.yaml being loaded win, then the file named by the caller, and the working directory is searched only when neither exists and nothing is set yet -- whether or not the yaml file name was passed along for logging", 64)
+    fn = core.find_def(LOADH, "select_and_extract_force_constants")
+    pnames = [a.arg for a in fn.args.args]
+    for need in ("fc", "force_constants_filename", "phonopy_yaml_filename"):
+        if need not in pnames:
+            raise AnalysisError(f"R16p: select_and_extract_force_constants lost its parameter '{need}'")
+
+    class Unknown(Exception):
+        pass
+
+    def run_case(flags):
+        env = {"fc": "yaml" if flags["yaml_fc"] else None, "force_constants_filename": "named-file" if flags["named"] else None,
+               "phonopy_yaml_filename": "yaml-name" if flags["yaml_name"] else None}
+
+        def ev(e):
+            if isinstance(e, ast.Constant):
+                return e.value
+            if isinstance(e, ast.Name):
+                if e.id in env:
+                    return env[e.id]
+                raise Unknown(e.id)
+            if isinstance(e, ast.Attribute) and core.src(e) == "phonon.force_constants":
+                return "set" if flags["object_has"] else None
+            if isinstance(e, ast.Compare) and len(e.ops) == 1 and isinstance(e.ops[0], (ast.Is, ast.IsNot)) and isinstance(e.comparators[0], ast.Constant) and e.comparators[0].value is None:
+                v = ev(e.left)
+                return (v is None) == isinstance(e.ops[0], ast.Is)
+            if isinstance(e, ast.BoolOp):
+                vals = [ev(v) for v in e.values]
+                return all(vals) if isinstance(e.op, ast.And) else any(vals)
+            if isinstance(e, ast.UnaryOp) and isinstance(e.op, ast.Not):
+                return not ev(e.operand)
+            if isinstance(e, ast.Call) and isinstance(e.func, ast.Attribute) and e.func.attr in ("exists", "is_file") and isinstance(e.func.value, ast.Call) and e.func.value.args:
+                name = ev(e.func.value.args[0])
+                return {"FORCE_CONSTANTS": flags["cwd_text"], "force_constants.hdf5": flags["cwd_hdf5"]}.get(name, False)
+            if isinstance(e, ast.Call) and core.src(e.func) in ("os.path.exists", "os.path.isfile") and e.args:
+                name = ev(e.args[0])
+                return {"FORCE_CONSTANTS": flags["cwd_text"], "force_constants.hdf5": flags["cwd_hdf5"]}.get(name, False)
+            if isinstance(e, ast.Call) and core.src(e.func).endswith("_read_force_constants_file") and len(e.args) >= 2:
+                v = ev(e.args[1])
+                return "named-file" if v == "named-file" else f"cwd:{v}"
+            if isinstance(e, ast.Call) and any(isinstance(a, ast.Name) and a.id == "_fc" for a in e.args):
+                return env.get("_fc")  # a layout conversion of the chosen force constants
+            if isinstance(e, ast.Attribute) and isinstance(e.value, ast.Name) and e.value.id == "_fc":
+                raise Unknown("shape test")
+            raise Unknown(core.src(e))
+
+        def block(stmts):
+            for st in stmts:
+                if isinstance(st, ast.Expr) and isinstance(st.value, (ast.Constant, ast.Call)):
+                    continue
+                if isinstance(st, ast.Assign) and len(st.targets) == 1 and isinstance(st.targets[0], ast.Name):
+                    env[st.targets[0].id] = ev(st.value)
+                elif isinstance(st, ast.If):
+                    try:
+                        t = ev(st.test)
+                    except Unknown:
+                        continue  # layout / logging tests after the choice was made: they do not change the source
+                    r = block(st.body if t else st.orelse)
+                    if r is not None:
+                        return r
+                elif isinstance(st, ast.For) and isinstance(st.iter, (ast.Tuple, ast.List)) and isinstance(st.target, ast.Name):
+                    for el in st.iter.elts:
+                        env[st.target.id] = ev(el)
+                        r = block(st.body)
+                        if r == "break":
+                            break
+                        if r is not None:
+                            return r
+                elif isinstance(st, ast.Break):
+                    return "break"
+                elif isinstance(st, ast.Return):
+                    return ("ret", ev(st.value) if st.value is not None else None)
+                else:
+                    raise Unknown(core.src(st))
+            return None
+
+        r = block(fn.body)
+        if not (isinstance(r, tuple) and r[0] == "ret"):
+            raise Unknown("no return")
+        return r[1]
+
+    keys = ["yaml_fc", "named", "object_has", "cwd_text", "cwd_hdf5", "yaml_name"]
+    for combo in itertools.product((True, False), repeat=len(keys)):
+        flags = dict(zip(keys, combo))
+        try:
+            got = run_case(flags)
+        except Unknown as e:
+            raise AnalysisError(f"R16p: select_and_extract_force_constants: '{core.norm(str(e), 60)}' cannot be evaluated over the sources")
+        if flags["yaml_fc"]:
+            want = "yaml"
+        elif flags["named"]:
+            want = "named-file"
+        elif not flags["object_has"] and flags["cwd_text"]:
+            want = "cwd:FORCE_CONSTANTS"
+        elif not flags["object_has"] and flags["cwd_hdf5"]:
+            want = "cwd:force_constants.hdf5"
+        else:
+            want = None
+        shown = ", ".join(k for k, v in flags.items() if v) or "nothing available"
+        rep.instance("R16p", LOADH, "select_and_extract_force_constants", f"[{shown}] -> {want}", got == want,
+                     f"with [{shown}] the loader takes the force constants from '{got}' instead of '{want}': a FORCE_CONSTANTS / force_constants.hdf5 file that happens to lie in the working directory replaces the force constants stored in the phonopy.yaml being loaded, so save() followed by load() does not return what was saved", line=fn.lineno, nontrivial=bool(want))
 
 
 def _r16o(rep):
